@@ -63,9 +63,15 @@ struct vt_world
 typedef vt_world* MPI_Comm;
 
 inline int& vt_this_rank() { static thread_local int r = 0; return r; }
+// MPI_COMM_WORLD: the communicator a run is given may be a *sub*-communicator of the world (as after MPI_Comm_split):
+// the world rank of a thread is its communicator rank plus an offset, the world is larger by the same amount on each side
+inline int& vt_world_offset() { static thread_local int o = 0; return o; }
+inline int& vt_world_extra() { static thread_local int e = 0; return e; }
+#define MPI_COMM_WORLD ((vt_world*) 0)
 
-inline int MPI_Comm_rank(MPI_Comm, int* rank) { *rank = vt_this_rank(); return MPI_SUCCESS; }
-inline int MPI_Comm_size(MPI_Comm c, int* size) { *size = c->size; return MPI_SUCCESS; }
+inline int MPI_Comm_rank(MPI_Comm c, int* rank) { *rank = c ? vt_this_rank() : vt_this_rank() + vt_world_offset(); return MPI_SUCCESS; }
+inline int& vt_comm_size() { static thread_local int n = 1; return n; }
+inline int MPI_Comm_size(MPI_Comm c, int* size) { *size = c ? c->size : vt_comm_size() + 2 * vt_world_offset(); return MPI_SUCCESS; }
 
 inline std::size_t vt_type_size(int t)
 {
@@ -179,7 +185,7 @@ inline int MPI_Finalize() { return MPI_SUCCESS; }
 
 // run `body(rank)` on `size` threads as the ranks of a fresh world; returns true iff no deadlock
 inline bool vt_mpi_run(int size, unsigned long long seed, std::function<void(MPI_Comm, int)> const& body,
-    bool trace = true)
+    bool trace = true, int world_offset = 0)
 {
     vt_world w(size, seed);
     w.trace = trace;
@@ -189,6 +195,8 @@ inline bool vt_mpi_run(int size, unsigned long long seed, std::function<void(MPI
     {
         ts.emplace_back([&, r] {
             vt_this_rank() = r;
+            vt_world_offset() = world_offset;
+            vt_comm_size() = size;
             try { body(&w, r); }
             catch (vt_deadlock const&) { dead[(std::size_t) r] = 1; }
             std::lock_guard<std::mutex> g(w.m);
